@@ -749,12 +749,13 @@ void serializer_case(uint64_t idx, vh::Rng &r) {
         Deserializer d(in.p, avail, Endian::kBig);
         size_t pos = 0;
         bool stream = r.chance(1, 3);
-        bool dead = false, misaligned = false;
+        bool dead = false, misaligned = false, des_big = true;   // the Deserializer is constructed big-endian
         for (size_t i = 0; i < f.size() && !dead; ++i) {
             const Field &x = f[i];
             if (x.kind == Field::BE || x.kind == Field::LE) {
                 Endian e = x.kind == Field::BE ? Endian::kBig : Endian::kLittle;
                 if (stream) d >> e; else d.setEndian(e);
+                des_big = (e == Endian::kBig);
                 continue;
             }
             const size_t sz = x.size();
@@ -807,13 +808,27 @@ void serializer_case(uint64_t idx, vh::Rng &r) {
                     case Field::U64: case Field::I64: { uint64_t v = 0; ok = d.fetch(v); value_ok = v == x.bits; break; }
                     case Field::RAW: {
                         unsigned w = (unsigned)r.below(3);
-                        if (w == 0) { ob.reset(new Out(sz)); ok = d.fetch(ob->p(), sz); ob->check("deserializer-fetch"); value_ok = !ok || memcmp(ob->p(), x.bytes.data(), sz) == 0; }
+                        if (w == 0) { ob.reset(new Out(sz)); for (size_t j = 0; j < sz; ++j) ob->p()[j] = (uint8_t)~(uint8_t)x.bytes[j]; ok = d.fetch(ob->p(), sz); ob->check("deserializer-fetch"); value_ok = !ok || memcmp(ob->p(), x.bytes.data(), sz) == 0; }
                         else if (w == 1) { const void *p = d.fetchNoCopy(sz); ok = p != nullptr;
                                            if (ok && fits) value_ok = p == in.p + pos && memcmp(p, x.bytes.data(), sz) == 0; }
                         else { ok = d.skip(sz); }
                         break;
                     }
-                    case Field::POD: { ob.reset(new Out(sz)); ok = d.fetchPOD(ob->p(), sz); ob->check("deserializer-fetchPOD"); value_ok = !ok || memcmp(ob->p(), x.bytes.data(), sz) == 0; break; }
+                    case Field::POD: {
+                        // the destination is poisoned with the complement of every expected byte: a byte the codec leaves untouched
+                        // (or copies from the wrong place) cannot look right by accident
+                        ob.reset(new Out(sz));
+                        for (size_t j = 0; j < sz; ++j) ob->p()[j] = (uint8_t)~(uint8_t)x.bytes[j];
+                        ok = d.fetchPOD(ob->p(), sz); ob->check("deserializer-fetchPOD");
+                        value_ok = !ok || memcmp(ob->p(), x.bytes.data(), sz) == 0;
+                        if (ok && fits && !misaligned) {
+                            vh::counter(des_big ? "des_pod_big_endian" : "des_pod_little_endian");
+                            if (sz & 1) vh::counter(des_big ? "des_pod_odd_size_big_endian" : "des_pod_odd_size_little_endian");
+                            if (sz == 1) vh::counter("des_pod_size_1");
+                            vh::counter_max("max_des_pod_size", sz);
+                        }
+                        break;
+                    }
                     default: break;
                 }
             }
